@@ -147,6 +147,7 @@ fn two_servers(ctx: &mut Ctx) {
                     for (k, seg) in fi.segments.iter().enumerate() {
                         let p = store.join("xorbs").join(format!("default.{}", seg.cas_hash.hex()));
                         if !p.is_file() {
+                            ctx.fail("C16", "success-but-xorb-never-reached-its-server", format!("session {si} against {endpoint} reported success (no fault anywhere), yet the shard it uploaded there records file {} with segment {k} in xorb {}, which was never uploaded to that server (an earlier session of the same client uploaded to {})", fi.metadata.file_hash.hex(), seg.cas_hash.hex(), if si == 1 { ea } else { eb }), replay.clone());
                             ctx.fail("C02", "record-references-xorb-missing-on-its-server", format!("after session {si} (endpoint {endpoint}; one client cache root, earlier session against {}): file {} segment {k} in a shard uploaded to this server references xorb {}, which this server does not hold", if si == 1 { ea } else { eb }, fi.metadata.file_hash.hex(), seg.cas_hash.hex()), replay.clone());
                         }
                     }
